@@ -62,6 +62,18 @@ def run(ctx):
         s = rng.randrange(10 ** 6)
         srt = lambda x, t: np.array(sorted(x), dtype=float)         # B sees every batch sorted by its first feature
         full.append(P.two_runs("KdqTreeBatch", p, p, items, s, "Equal", feed_b=lambda d, x, t, srt=srt: d.update(srt(x, t)), pre_b=srt, extra={"order": "asc"}))
+    # kdq-tree with a binding minimum cell size (cutpoint_proportion_lbound well above its tiny default, data on a scale of hundreds, deep trees):
+    # the cell-size bound is a property of the FEATURES' ranges, whatever rows come first
+    for i in range(3 if q else 20):
+        p = P.default_params("KdqTreeBatch", rng)
+        p.update(count_ubound=rng.choice([3, 6]), cutpoint_proportion_lbound=rng.choice([0.05, 0.125, 0.25]))
+        dd = rng.choice([2, 3])
+        sc = [rng.choice([40, 300, 1000]) for _ in range(dd)]
+        items = [[[rng.randint(0, sc[a]) for a in range(dd)] for _ in range(rng.randint(150, 260))] for _ in range(4)]
+        s = rng.randrange(10 ** 6)
+        order = ("perm", "asc", "desc")[i % 3]
+        pre = pre_of(order, s)
+        full.append(P.two_runs("KdqTreeBatch", p, p, items, s, "Equal", feed_b=lambda d, x, t, pre=pre: d.update(pre(x, t)), pre_b=pre, extra={"order": order}))
     rep = lambda ts: (lambda i: {"fam": ts[i]["fam"], "pa": ts[i]["pa"], "items": ts[i]["items"], "seed": ts[i]["seed"], "rel": ts[i]["cfg"]["rel"], "order": ts[i].get("order", "perm")})
     # NNDVI's tag is a digest of the retained reference IN ROW ORDER: blank it (the permuted run retains permuted rows)
     for t in full:
